@@ -379,9 +379,9 @@ def check_C15(ctx):
     if r.ok():
         r.run_corpus()
         for f in ke_replay(ctx): r.run(f)
-        seeds = [ctx.seed] if ctx.quick() else [ctx.seed + i for i in range(3)]
-        count = 60 if ctx.quick() else 300
-        nops = 15 if ctx.quick() else 24
+        seeds = [ctx.seed] if ctx.quick() else [ctx.seed + i for i in range(2)]
+        count = 60 if ctx.quick() else 250
+        nops = 15 if ctx.quick() else 20        # thorough took > 40 min on a loaded machine with 3 x 300 x 24
         for sd in seeds:
             r.run(r.generate(sd, count, ["tetvalid", "tetmal", "tetvalid"], nops, "g"))
         if (ctx.broken or any(d.component != "crash" for d in r.kr.divs)) and not r.kr.oracle_fails:
@@ -439,7 +439,7 @@ def check_C16(ctx):
     if r.ok():
         r.run_corpus()
         for f in ke_replay(ctx): r.run(f)
-        seeds = [ctx.seed] if ctx.quick() else [ctx.seed + i for i in range(6)]
+        seeds = [ctx.seed] if ctx.quick() else [ctx.seed + i for i in range(4)]
         count = 60 if ctx.quick() else 400
         nops = 14 if ctx.quick() else 30
         for sd in seeds:
